@@ -14,8 +14,9 @@ def harnesses(tier):
     for w in range(5):
         for n in ((2, 3) if w < 4 else (1,)):
             if tier == 'quick' and n == 3 and w >= 2: continue
+            if tier == 'quick' and w < 2: continue      # and / or build their rows with std::vector inserts of data-dependent size: encoding exceeds 16 GB (thorough tier, 40 GB)
             for ctx in (1, 2, 3):
-                h = Harness('h_reform', 'redef', unwind=10, timeout=300 if tier == 'quick' else 1800, mem_gb=16, defines=['WHICH=%d' % w, 'NARGS=%d' % n, 'CTX=%d' % ctx], tv_cases=0, flags=['--object-bits', '10'], assumptions=A,
+                h = Harness('h_reform', 'redef', unwind=10, timeout=300 if tier == 'quick' else 1800, mem_gb=16 if w >= 2 else 40, defines=['WHICH=%d' % w, 'NARGS=%d' % n, 'CTX=%d' % ctx], tv_cases=0, flags=['--object-bits', '10'], assumptions=A,
                             bounds='%s over %d argument(s), context %s; every integer point in [-1000,1000]^k, every auxiliary assignment' % (NAMES[w], n, {1: 'positive', 2: 'negative', 3: 'mixed'}[ctx]),
                             claims='MIP redefinition of %s: the emitted linear / indicator constraints hold at a point (for some auxiliary values) iff the original functional constraint holds there in its context' % NAMES[w])
                 h.label = 'h_reform[%s,n%d,ctx%d]' % (NAMES[w], n, ctx); hs.append(h)
